@@ -683,3 +683,70 @@ Lemma contracts_run c h s0 m :
   feat_nodup (c_order c) = true ->
   map (obs_core m) (frun c (init_world s0) h) = map (sobs_core m) (spec_run c (spec_init s0) h).
 Proof. intros ND. apply runA; [exact ND | apply simA_init]. Qed.
+
+(* ----------------------------------------------------------------- models with occupied hook names *)
+Lemma simA_init_p c s0 pre k : simA c (init_world_p s0 pre k) (spec_init_p s0 pre k).
+Proof. intros m. simpl. auto. Qed.
+
+Lemma simB_init_p c s0 pre k : simB c (init_world_p s0 pre k) (spec_init_p s0 pre k).
+Proof. split; [reflexivity|]. intros m. simpl. auto. Qed.
+
+Lemma volatile_final_p c h s0 pre k m hk :
+  wf_cfg c = true -> vol_guard c = true ->
+  m_hooks (w_m (frun_world c (init_world_p s0 pre k) h) m) hk =
+  spec_hooks c (sw_m (spec_run_world c (spec_init_p s0 pre k) h) m) hk.
+Proof.
+  intros WF G. destruct (runB_world c WF G h _ _ (simB_init_p c s0 pre k)) as [_ S]. apply S.
+Qed.
+
+Lemma contracts_run_p c h s0 pre k m :
+  feat_nodup (c_order c) = true ->
+  map (obs_core m) (frun c (init_world_p s0 pre k) h) = map (sobs_core m) (spec_run c (spec_init_p s0 pre k) h).
+Proof. intros ND. apply runA; [exact ND | apply simA_init_p]. Qed.
+
+(* one entry, whatever the model held before: the hook name bears the object numbered by
+   the counter, the counter advances, no other name is touched *)
+Lemma entry_fresh c fs m src d r f it r' f' x :
+  feat_nodup fs = true -> chain_cut_free c fs = true -> fmem FVolatile fs = true ->
+  (no_retries c = true -> fs_retries (sdef c d) = 0) ->
+  (no_error_states c = true -> error_test c d = false) ->
+  enter_chain c fs m src d r f = (it, r', f', x) ->
+  m_hooks r' (fs_hook (sdef c d)) = Some f /\ f' = S f /\
+  (forall h, h <> fs_hook (sdef c d) -> m_hooks r' h = m_hooks r h).
+Proof.
+  intros ND G V HR HE E.
+  destruct (chain_hooks_guard _ _ _ _ _ _ _ _ _ _ _ ND G HR HE E) as [A B].
+  rewrite V in A, B. rewrite A. repeat split.
+  - apply upd_same.
+  - exact B.
+  - intros h N. now apply upd_other.
+Qed.
+
+Lemma exit_removes c m s r :
+  has_volatile (c_order c) = true ->
+  m_hooks (snd (exit_chain c m s r)) (fs_hook (sdef c s)) = None /\
+  (forall h, h <> fs_hook (sdef c s) -> m_hooks (snd (exit_chain c m s r)) h = m_hooks r h).
+Proof.
+  intros V. unfold exit_chain. rewrite V. simpl. split; [apply upd_same|].
+  intros h N. now apply upd_other.
+Qed.
+
+(* every order: objects are only ever numbered by the counter, which never decreases *)
+Lemma chain_fresh_bound c fs : forall m src d r f it r' f' x,
+  enter_chain c fs m src d r f = (it, r', f', x) ->
+  f <= f' /\ (forall h o, m_hooks r' h = Some o -> o < f' \/ m_hooks r h = Some o).
+Proof.
+  induction fs as [|g k IH]; intros m src d r f it r' f' x H.
+  - simpl in H. inversion H; subst. split; [lia | auto].
+  - chain_cases g H.
+    + eauto.
+    + destruct (error_test c d); [inversion H; subst; split; [lia | auto] | eauto].
+    + destruct (IH _ _ _ _ _ _ _ _ _ H) as [A B]. split; [lia|].
+      intros h o Ho. destruct (B h o Ho) as [L|R]; [now left|].
+      simpl in R. unfold upd in R. destruct (Nat.eqb h (fs_hook (sdef c d))).
+      * inversion R; subst. left. lia.
+      * now right.
+    + destruct (_ && _); [inversion H; subst; split; [lia | auto]|].
+      destruct (IH _ _ _ _ _ _ _ _ _ H) as [A B]. split; [exact A|]. intros h o Ho.
+      destruct (B h o Ho) as [L|R]; [now left | now right].
+Qed.
